@@ -475,14 +475,15 @@ PROPS = {
     "C01": {
         "sub": "c01",
         "trivial": r"content=gen:\d+:0 ",
-        "lean_modules": ["DatamonVerif.Props.C01", "DatamonVerif.Props.C01Put"],
+        "lean_modules": ["DatamonVerif.Props.C01", "DatamonVerif.Props.C01Seq", "DatamonVerif.Props.C01Put"],
         "timeout_quick": 900, "timeout_thorough": 3400,
         "level_text": "Proof: theorems about the model of the cafs writer, Put and the three readers (all contents, leaf sizes, write "
                       "chunkings, read programs); model tied to pkg/cafs by differential runs of Put/Read/ReadAt/WriteTo on memstore.",
         "level_note": "Trusted: Lean kernel, harness+driver, memstore as the store contract, the Lean BLAKE2b (tested against Go). "
                       "Not in the model: buffer pool, LRU pinning, prefetch goroutines, WriteTo parallelism (exercised by the harness only).",
         "trusted": CAFS_TRUSTED,
-        "assumptions": ["blob reader returns data then EOF separately (memstore / afero behaviour)"],
+        "assumptions": ["the store's blob reader is one of the RMode behaviours of Model/CafsSeq.lean (EOF with or after the last bytes, "
+                        "(0,nil) or (0,EOF) on an empty buffer at the end, short reads capped at k bytes); the Read theorems hold for every mode"],
     },
     "C02": {
         "sub": "c02",
@@ -499,7 +500,7 @@ PROPS = {
     "C03": {
         "sub": "c03",
         "trivial": r"^never-trivial$",
-        "lean_modules": ["DatamonVerif.Props.C03"],
+        "lean_modules": ["DatamonVerif.Props.C03", "DatamonVerif.Props.C03Seq"],
         "timeout_quick": 900, "timeout_thorough": 3400,
         "level_text": "Proof: for EVERY store content (any fault), a verified read returns an error or exactly the stored bytes, under the "
                       "no-collision hypothesis on the pairs hashed. The implementation's outcome under sampled single-blob faults is judged "
